@@ -2,6 +2,7 @@
 //! integers (the case) to a list of integers (the canonical result), exactly like the
 //! extracted Coq model does for the same suite name.
 pub mod c14;
+pub mod c19;
 
 pub type Suite = fn(&[i128]) -> Vec<i128>;
 
@@ -10,6 +11,7 @@ pub fn suites() -> Vec<(&'static str, Suite)> {
         ("c14_builder", c14::run_builder as Suite),
         ("from_points", c14::run_from_points as Suite),
         ("c14_transform", c14::run_transform as Suite),
+        ("c19", c19::run as Suite),
     ]
 }
 
